@@ -61,6 +61,9 @@ CRAFTED = [
     "a = h(1, 2)\nb = h(1, 3)\nif a:\n    c = h(h(1, 2), 2)\n    d = h(1, 2)\nelse:\n    c = 0\n    d = h(1, 2)\n",
     "x = 1\ny = 2\nx = 1\nz = 2\nx = 1\ny = 2\n",
     "v = [k * k for k in w]\nu = [k * j for k in w]\nt = {k * k: k for k in w}\n",
+    # nodes with optional fields: the same number of present children in DIFFERENT slots must not match
+    "p = items[n:]\nq = items[:n]\nr = items[::n]\ns = items[n:m]\nt = items[n::m]\nu = items[:n:m]\n",
+    "def f(e, c):\n    raise e\ndef g(e, c):\n    raise e from c\ndef h(e, c):\n    try:\n        e = c\n        c = e\n    finally:\n        e = c\n        c = e\n    e = c\n    c = e\n",
 ]
 
 
@@ -68,7 +71,7 @@ def enumerate_cases(tier, k, nworkers):
     """a small exhaustive suite over crafted modules: every node, every pair of abstracted sub-expressions, shared or not"""
     i = 0
     for src in CRAFTED:
-        for node in range(12):
+        for node in range(16):
             for subs in ([], [0], [1], [0, 1], [0, 2], [1, 2]):
                 for share in (False, True):
                     for stmts in (0, 1, 2):
